@@ -1150,7 +1150,6 @@ func (e *Engine) freshenRegions(st *State, v Value) Value {
 	return v
 }
 
-
 // withStrLit: a heap in which the bytes of a (short) string constant are present at its fixed region, for use as
 // the source of a copy — string constants are otherwise only known to the byte-indexing code.
 func (e *Engine) withStrLit(h Heap, p Ptr) Heap {
